@@ -235,10 +235,11 @@ const (
 	Extremes                        // centres at the ends of the (si,ti) range
 	NearCentres                     // centres moved by one ulp in one coordinate (must go off-centre)
 	RawCentres                      // unnormalised centres and scaled centres (not unit length)
+	LatticeMixed                    // centres of one level mixed with (si,ti) lattice points whose si and ti are at different levels (cell corners, edge midpoints)
 	numVertexModes
 )
 
-var ModeNames = []string{"one-level", "mixed-levels", "partly-free", "mostly-free", "face-hopping", "si-ti-extremes", "near-centres", "raw-centres"}
+var ModeNames = []string{"one-level", "mixed-levels", "partly-free", "mostly-free", "face-hopping", "si-ti-extremes", "near-centres", "raw-centres", "lattice-mixed-levels"}
 
 // Vertices generates n vertices in the given mode around level.
 func Vertices(rng *vkit.Rng, mode VertexMode, n, level int) []s2.Point {
@@ -284,6 +285,12 @@ func Vertices(rng *vkit.Rng, mode VertexMode, n, level int) []s2.Point {
 			case 2:
 				p.Z = vkit.Ulps(p.Z, 1-2*rng.Intn(2))
 			}
+		case LatticeMixed:
+			if rng.Intn(3) != 0 {
+				p = CellAt(rng, face, level, 0).Point()
+			} else {
+				p = LatticePoint(rng, face, level, rng.Intn(3))
+			}
 		case RawCentres:
 			c := CellAt(rng, face, level, 0)
 			f, si, ti := s2.VerifC09CellFaceSiTi(c)
@@ -295,6 +302,42 @@ func Vertices(rng *vkit.Rng, mode VertexMode, n, level int) []s2.Point {
 		out = append(out, p)
 	}
 	return out
+}
+
+// siAtLevel draws an si (or ti) value that is the centre coordinate of a cell of the given level:
+// an odd multiple of 2^(30-level).
+func siAtLevel(rng *vkit.Rng, level int) uint32 {
+	k := uint32(rng.U64()) & (1<<uint(level) - 1)
+	return (2*k + 1) << uint(30-level)
+}
+
+// LatticePoint is a unit point exactly on the (si,ti) lattice, computed like a cell centre or a
+// cell vertex (faceSiTiToXYZ, normalised), that is NOT a cell centre: kind 0 = si at [level], ti at
+// another level (a cell-edge midpoint of some cell); kind 1 = ti at [level], si at another level;
+// kind 2 = both at coarser positions of different levels (a cell corner when even).
+func LatticePoint(rng *vkit.Rng, face, level, kind int) s2.Point {
+	other := rng.Intn(31)
+	for other == level {
+		other = rng.Intn(31)
+	}
+	si, ti := siAtLevel(rng, level), siAtLevel(rng, other)
+	switch kind {
+	case 1:
+		si, ti = ti, si
+	case 2:
+		si = uint32(rng.Intn(1<<uint(min(level, 20))+1)) << uint(31-min(level, 20))
+		if si == 0 {
+			si = 1 << 30
+		}
+	}
+	return s2.Point{Vector: s2.VerifC09FaceSiTiToXYZ(face, si, ti).Normalize()}
+}
+
+func min(a, b int) int {
+	if a < b {
+		return a
+	}
+	return b
 }
 
 // RawLoop builds a loop with arbitrary (possibly inconsistent) origin flag, depth and bound:
@@ -335,7 +378,16 @@ func GenLoop(rng *vkit.Rng) (*s2.Loop, string) {
 
 // GenPolygon returns a polygon, its class, and whether every loop has at least one vertex.
 func GenPolygon(rng *vkit.Rng) (*s2.Polygon, string) {
-	switch rng.Intn(13) {
+	switch rng.Intn(15) {
+	case 13, 14:
+		// the four vertices of a cell (corners of the (si,ti) lattice: si and ti even at the cell's
+		// level, in general at different levels), every face, any level
+		c := CellAt(rng, rng.Intn(6), rng.Intn(31), rng.Intn(4))
+		if rng.Bool() {
+			return s2.PolygonFromCell(s2.CellFromCellID(c)), "polygon:from-cell"
+		}
+		l := s2.LoopFromCell(s2.CellFromCellID(c))
+		return s2.PolygonFromLoops([]*s2.Loop{l}), "polygon:from-cell"
 	case 5:
 		// a loop without vertices among (or instead of) snapped loops
 		loops := []*s2.Loop{s2.VerifC09LoopRaw(nil, true, 1, AnyRect(rng))}
